@@ -117,6 +117,68 @@ def _leaf_matrix(rng, T, mode, dtag, values, style, infs=None):
     return m
 
 
+def _groups(T, s):
+    """Top-left corners of the aligned 2^s x 2^s groups of a T x T matrix (s = 1: the 2x2 blocks of one reduction)."""
+    g = 2 ** s
+    return [(r0, c0) for r0 in range(0, T, g) for c0 in range(0, T, g)]
+
+
+def _vanish_matrix(rng, T, values, s=1):
+    """Float: undefined everywhere except in some aligned 2^s x 2^s groups that hold +inf all over one quarter and -inf all
+    over another (s = 1: the quarters are single pixels of one 2x2 block); the other two quarters are undefined or finite.
+    After s reductions every such group is one pixel with both infinities among its four inputs: no mean, undefined."""
+    m = [[() for _ in range(T)] for _ in range(T)]
+    h = 2 ** (s - 1)
+    gs = _groups(T, s)
+    for r0, c0 in rng.sample(gs, rng.randint(1, max(1, len(gs) // 2))):
+        quarters = [(r0 + i * h, c0 + j * h) for i in range(2) for j in range(2)]
+        rng.shuffle(quarters)
+        fill = [(1, 0), (-1, 0), None, None]
+        for (qr, qc), v in zip(quarters, fill):
+            w = v if v is not None else (((rng.choice(values),) if rng.random() < 0.5 else ()))
+            for r in range(qr, qr + h):
+                for c in range(qc, qc + h):
+                    m[r][c] = w
+    return tuple(tuple(row) for row in m)
+
+
+def _faint_matrix(rng, T, strong=None):
+    """Colour with alpha: transparent everywhere except for faint pixels, at most three units of alpha per 2x2 block (one
+    pixel of alpha 1-3, or two / three pixels sharing them): the block's mean alpha is below 1.  With `strong` (a matrix),
+    the faint pixels are added to the blocks of that matrix that are entirely transparent, and a few blocks get alphas
+    that sum to 4-6 (a mean of at least 1: surely defined)."""
+    m = [[(0, 0, 0, 0) for _ in range(T)] for _ in range(T)] if strong is None else [list(row) for row in strong]
+    blocks = [b for b in _groups(T, 1) if all(m[b[0] + i][b[1] + j][3] == 0 for i in range(2) for j in range(2))]
+    if not blocks:
+        return tuple(tuple(row) for row in m)
+    for r0, c0 in rng.sample(blocks, rng.randint(1, len(blocks))):
+        units = rng.randint(1, 3) if (strong is None or rng.random() < 0.7) else rng.randint(4, 6)
+        cells = [(r0 + i, c0 + j) for i in range(2) for j in range(2)]
+        rng.shuffle(cells)
+        while units > 0:
+            r, c = cells.pop()
+            a = units if (not cells or rng.random() < 0.5) else rng.randint(1, units)
+            a = min(a, 3)
+            m[r][c] = (rng.randint(0, 255), rng.randint(0, 255), rng.randint(0, 255), a)
+            units -= a
+    return tuple(tuple(row) for row in m)
+
+
+def _peaks_matrix(rng, T, mode, values, hi, lo):
+    """Every pixel defined, mid values; the leaf's maximum `hi` (and, Float, its minimum `lo`) on single pixels whose three
+    block neighbours hold mid values: 2x2 averaging dilutes both extremes at the first reduction.  -> (matrix, peak cells)"""
+    m = [[(rng.choice(values),) for _ in range(T)] for _ in range(T)]
+    b = rng.sample(_groups(T, 1), 2)
+    peaks = []
+    for (r0, c0), v in zip(b, [hi, lo]):
+        if v is None:
+            continue
+        r, c = r0 + rng.randrange(2), c0 + rng.randrange(2)
+        m[r][c] = (v,)
+        peaks.append((r, c))
+    return tuple(tuple(row) for row in m), peaks
+
+
 def _is_allu(m, mode):
     if mode == "Float":
         return all(px == () for row in m for px in row)
@@ -231,6 +293,46 @@ def make_case(rng, cid, T, depth, fmt, dtag, run="serial", pleaf=None, stale_p=0
             leaves.pop(k, None)
         for k in rng.sample(kids(par), rng.randint(1, 4)):
             leaves[k] = _leaf_matrix(rng, T, mode, dtag, values, "allu")
+    if shape == "vanish" and depth >= 1 and mode == "Float":
+        # parents whose children hold defined pixels that the 2x2 reduction ITSELF turns undefined: the only defined pixels
+        # beneath them are +inf / -inf pairs inside one block (beside finite or undefined pixels), so the merged tile is entirely
+        # undefined although the mosaic is not - the parent must not exist (an earlier file goes).  With T >= 4 and depth >= 2
+        # also one level further up: a tile whose children exist and whose own reduction cancels everything.
+        pars = level(depth - 1)
+        vp = rng.sample(pars, 1 if len(pars) < 4 else rng.randint(1, 2))
+        deep = depth >= 2 and T >= 4 and rng.random() < 0.5
+        if deep:
+            gp = rng.choice(level(depth - 2))
+            vp = [q for q in pars if ancestor(q, depth - 2) == gp]
+        for par in vp:
+            for k in kids(par):
+                leaves.pop(k, None)
+            for k in rng.sample(kids(par), rng.randint(1, 4)):
+                leaves[k] = _vanish_matrix(rng, T, values, 2 if deep else 1)
+    if shape == "faint" and depth >= 1 and dtag == "rgba":
+        # colour with alpha: parents whose only non-transparent pixels are faint and isolated (at most three units of alpha per
+        # block, the mean alpha is below 1: 0 when truncated), beside ordinary leaves some of which carry faint pixels too
+        pars = level(depth - 1)
+        fp = rng.sample(pars, 1 if len(pars) < 4 else 2)
+        for par in fp:
+            for k in kids(par):
+                leaves.pop(k, None)
+            for k in rng.sample(kids(par), rng.randint(1, 4)):
+                leaves[k] = _faint_matrix(rng, T)
+        for l in sorted(leaves):
+            if ancestor(l, depth - 1) not in fp and rng.random() < 0.5:
+                leaves[l] = _faint_matrix(rng, T, strong=leaves[l])
+    peaks = {}
+    if shape == "peaks" and mode in ("Float", "Int"):
+        # every leaf fully defined with its extremes on isolated pixels (averaging dilutes them at the first reduction); the
+        # extremes differ from leaf to leaf, so that the range of every tile names the leaves beneath it
+        mids = [2, 3, 5, 10] if mode == "Int" else [-7, -1, 0, 1, 2, 3, 5]
+        chosen = [l for l in all_leaves if rng.random() < pleaf] or [rng.choice(all_leaves)]
+        leaves = {}
+        for i, l in enumerate(chosen):
+            hi = 100 + 37 * i
+            lo = None if mode == "Int" else -(60 + 29 * ((i * 7) % len(chosen)))
+            leaves[l], peaks[l] = _peaks_matrix(rng, T, mode, mids, hi, lo)
     has_data = set(l for l, m in leaves.items() if not _is_allu(m, mode))
     has_finite = any(len(px) == 1 for m in leaves.values() for row in m for px in row) if mode != "Colour" else False
     live = set(all_leaves)
@@ -242,7 +344,7 @@ def make_case(rng, cid, T, depth, fmt, dtag, run="serial", pleaf=None, stale_p=0
     # nothing at all (their children "have disappeared"), chains of stale ancestors included
     eligible = set(ancestor(l, n) for l in live for n in range(depth))
     stale = set()
-    if shape == "all-undefined-parent" or rng.random() < stale_p:
+    if shape in ("all-undefined-parent", "vanish", "faint") or rng.random() < stale_p:
         stale = set(p for p in eligible if rng.random() < (1.0 if shape == "all-undefined-parent" else 0.6))
     if shape == "empty-start" and not stale:
         stale = set(rng.sample(sorted(eligible), min(2, len(eligible))))
@@ -263,7 +365,7 @@ def make_case(rng, cid, T, depth, fmt, dtag, run="serial", pleaf=None, stale_p=0
     return {"warn_env": "error" if (mode == "Float" and rng.random() < 0.3) else "quiet", "dirname": rng.choice(names), "spelling": rng.choice(SPELLINGS), "fmt_route": rng.choice(["explicit", "explicit", "guessed"]),
             "id": cid, "T": T, "depth": depth, "fmt": fmt, "dtag": dtag, "mode": mode, "run": run, "keepu": bool(keepu),
             "leaves": leaves, "stale": stale, "live": live, "sv": sv, "scale": scale,
-            "has_data": bool(has_data), "has_finite": has_finite, "negzero": negzero, "rewrite": rewrite}
+            "has_data": bool(has_data), "has_finite": has_finite, "negzero": negzero, "rewrite": rewrite, "shape": shape, "peaks": peaks}
 
 
 def tla_case(c):
@@ -280,7 +382,8 @@ def tla_case(c):
                                           tla.lit(set(c["stale"])), tla.lit(c["sv"])))
 
 
-INVARIANTS = ["CaseOK", "InDomain", "DoneRight", "RestUntouched", "ExistenceRule", "ExistsIffDataBelow", "StaleReplaced",
+INVARIANTS = ["CaseOK", "DoneRight", "RestUntouched", "ExistenceRule", "ExistsIffDataBelow", "ExistsOnlyAboveData", "VanishedOnlyByReduction",
+              "MayOnlyColour", "StaleReplaced",
               "NeverStoredUndefined", "RangeRule", "LeafRangeRule", "NoRangeUnlessRanged", "RefusedLeavesDirectoryAlone", "Progress", "SerialAdmitted",
               "MergeCommutes"]
 
@@ -639,6 +742,12 @@ def replay_case(job):
     base = os.path.join(root, meta.get("dirname", "tiles"))
     os.makedirs(base)
     spelled, explicit = base, True
+    if run.startswith("builder") and not rec.get("refused"):
+        # Builder.cascade reads the root tile's cards: only where TLC expects a root with a range (a root can vanish, or hold
+        # nothing finite, when +inf and -inf cancel)
+        rootrec = [t for t in rec["final"] if tuple(t["pos"]) == (0, 0, 0)]
+        if not rootrec or not rootrec[0]["rng"]:
+            run = "par2" if run.endswith("par2") else "serial"
     old = signal.signal(signal.SIGALRM, _alarm)
     signal.alarm(120)
     try:
@@ -712,8 +821,11 @@ def replay_case(job):
             add("C02", "D", "other-files", "files of another kind in the pyramid: %s" % [os.path.relpath(o, base) for o in other[:4]])
         if set(p for p in found if p[0] == depth) != set(p for p in final if p[0] == depth):
             add("C02", "D", "leaves-changed", "the cascade changed the set of leaf files")
-        if exp_above != got_above:
-            missing, extra = sorted(exp_above - got_above), sorted(got_above - exp_above)
+        # tiles that MAY be entirely undefined (colour, faint alpha: undefined when the mean is truncated, defined when it is
+        # rounded up): the file may be absent; when it is there it must hold a defined pixel (checked with the pixels below)
+        may_above = set(p for p in exp_above if final[p].get("may"))
+        if (exp_above - may_above) - got_above or got_above - exp_above:
+            missing, extra = sorted((exp_above - may_above) - got_above), sorted(got_above - exp_above)
             stale = set(tuple(t["pos"]) for t in rec["init"] if t["pos"][0] < depth)
             add("C02", "V", "tile-set:%s" % runkind,
                 "tiles above the start level: missing %s, unexpected %s%s" % (missing, extra, " (stale files left: %s)" % sorted(set(extra) & stale) if set(extra) & stale else ""))
@@ -724,12 +836,17 @@ def replay_case(job):
             arr, _hdr = load_raw(found[p], fmt)
             res = compare_tile(arr, final[p]["px"], meta, depth - p[0], maxabs)
             ntiles += 1
+            if res is None and p in may_above and arr.ndim == 3 and arr.shape[2] == 4 and not arr[..., 3].any():
+                add("C02", "V", "tile-set:%s" % runkind, "tile %s exists although it is entirely undefined (every pixel transparent): the merged "
+                    "result of its children is entirely undefined, the tile must not exist" % (p,))
+                break
             if res is not None:
                 kind, msg = res
                 add("C02", "V", "%s:%s" % (kind, runkind), "tile %s: %s" % (p, msg))
                 break
         # ---- C14 observations ride on the same run
-        if fmt == "fits" and rec["ranged"] and not rec["keepu"]:
+        if fmt == "fits" and rec["ranged"] and not rec["keepu"] and rec.get("connected", True):
+            # (pyramids in which a tile vanishes because +inf and -inf cancel are judged by C02 only: C14's domain)
             ghosts = [p for p in sorted(set(found) - set(final)) if p[0] < depth]
             if ghosts:
                 _a, hdr = load_raw(found[ghosts[0]], fmt)
@@ -836,7 +953,7 @@ def _digest(rec):
 
 
 def _plain(meta):
-    return dict((k, (sorted(v) if isinstance(v, (set, frozenset)) else v)) for k, v in meta.items() if k not in ("leaves", "scratch", "obs", "rankvals", "compare"))
+    return dict((k, (sorted(v) if isinstance(v, (set, frozenset)) else v)) for k, v in meta.items() if k not in ("leaves", "scratch", "obs", "rankvals", "compare", "peaks", "first", "final", "hrec"))
 
 
 # ------------------------------------------------------------------------------------------------
@@ -928,6 +1045,15 @@ def build_cases(ctx, T, depth, plan, parallel_plan, mult=1, allow_keepu=True, re
             new(fmt, dtag, shape="zero-min", run="serial")
             new(fmt, dtag, shape="zero-max", run="cli")
             new(fmt, dtag, shape="inf-mix", run="serial")
+            if depth >= 1:
+                # tiles that the reduction itself makes entirely undefined (+inf / -inf pairs): they must not exist
+                new(fmt, dtag, shape="vanish", run="serial" if dtag == "f4" else "cli", pleaf=0.6)
+                if (fmt, dtag) == ("npy", "f4") and depth >= 2:
+                    new(fmt, dtag, shape="vanish", run="par2", pleaf=0.6)
+        if (fmt, dtag) == ("png", "rgba") and depth >= 1:
+            # ... and for colour with alpha: parents over nothing but faint isolated pixels (the mean alpha is below 1)
+            for r_ in ["serial", "cli"] + (["par2"] if depth >= 2 else []):
+                new(fmt, dtag, shape="faint", run=r_, pleaf=0.6)
         for i in range(n):
             run = ["serial", "serial", "cli", "serial", "filter", "serial"][i % 6]
             new(fmt, dtag, run=run)
@@ -945,12 +1071,8 @@ def jobs_for(ctx, cases, recs):
         meta = dict((k, v) for k, v in c.items() if k != "leaves")
         meta["scratch"] = ctx.scratch
         jobs.append((meta, rec))
-    skipped = len(cases) - len(jobs)
-    if skipped:
-        # cases outside the domain `Connected` (a tile vanishing only because +inf and -inf cancel) are skipped by Init
-        ctx.notes["cases_outside_domain_skipped"] = ctx.notes.get("cases_outside_domain_skipped", 0) + skipped
-        if skipped > 2 + len(cases) // 10:
-            ctx.machinery("TLC emitted %d terminal records for %d cases" % (len(jobs), len(cases)))
+    if len(jobs) != len(cases):
+        ctx.machinery("TLC emitted %d terminal records for %d cases" % (len(jobs), len(cases)))
     return jobs
 
 
@@ -979,7 +1101,7 @@ def plan_binding(ctx, prop, plan, parallel_plan, only_fits=False, builder_runs=0
                             mult=1 if quick else 6,
                             allow_keepu=allow_keepu, rewrite_p=rewrite_p)
         if builder_runs:
-            fits_data = [c for c in cases if c["fmt"] == "fits" and c["has_finite"] and not c["keepu"] and c["run"] in ("serial", "cli", "par2")]
+            fits_data = [c for c in cases if c["fmt"] == "fits" and c["has_finite"] and not c["keepu"] and c["run"] in ("serial", "cli", "par2") and c.get("shape") != "vanish"]
             for i, c in enumerate(fits_data[: builder_runs * (2 if depth == 2 else 1)]):
                 c["run"] = "builder-par2" if (c["run"] == "par2" or (i % 7 == 3 and depth == 2 and not quick)) else "builder"
         # quick tier: every children-first order for the first chunk, a window of 2 ready positions for the others
@@ -1008,7 +1130,7 @@ def plan_binding(ctx, prop, plan, parallel_plan, only_fits=False, builder_runs=0
                             mult=1, allow_keepu=allow_keepu, rewrite_p=rewrite_p)
         if builder_runs:
             for c in cases:
-                if c["fmt"] == "fits" and c["has_finite"] and not c["keepu"] and c["run"] == "serial":
+                if c["fmt"] == "fits" and c["has_finite"] and not c["keepu"] and c["run"] == "serial" and c.get("shape") != "vanish":
                     c["run"] = "builder"
         tasks.append({"name": "MC%sd3" % prop, "T": 8, "depth": 3, "cases": cases, "chunk": 3, "window": 2})
     return tasks
